@@ -52,9 +52,9 @@ def _imperfect_chunk(pairs):
 
 
 def _pmap(fn, items, chunk=400):
+    if len(items) <= 20000:      # importing accelforge in worker processes costs more than it saves
+        return fn(items)
     chunks = [items[i:i + chunk] for i in range(0, len(items), chunk)]
-    if len(chunks) <= 2:
-        return [r for c in chunks for r in fn(c)]
     with ProcessPoolExecutor(min(8, os.cpu_count() or 1)) as ex:
         return [r for part in ex.map(fn, chunks) for r in part]
 
@@ -94,6 +94,15 @@ def run(ck: Check):
                        "'smallest shape giving that count' is decisive only where the two readings (smallest integer "
                        "shape / smallest multiple of the inner size) agree that the set is wrong; for inner = 1 they "
                        "coincide"]
+    import time
+    T = {}
+    t0 = time.time()
+
+    def lap(name):
+        nonlocal t0
+        T[name] = round(time.time() - t0, 1)
+        t0 = time.time()
+    ck.extra["phase_wall_s"] = T
     pfile = os.path.join(ck.work, "params.json")
     json.dump(P, open(pfile, "w"))
     env = dict(JAVA_ENV, PARAM_FILE=pfile)
@@ -107,10 +116,12 @@ def run(ck: Check):
                           "choice sequences and, for perfect patterns, counts the ordered factorisations (%d lemma jobs)"
                           % (P["lemma_outer"], P["lemma_n"], res.distinct // 2))
 
+    lap("lemmas_tlc")
     # ---- B1: perfect candidate sets
     res = ck.tlc("MC_TileShapes", "MC_TileShapes_perfect.cfg", env=env, coverage=False, timeout=3000, workers=6)
     if not res.ok:
         raise Machinery("perfect generator failed: %s\n%s" % (res.violated, res.tail))
+    lap("perfect_tlc")
     expected = {}
     for r in res.records:
         o = r["job"]["outer"]
@@ -149,6 +160,7 @@ def run(ck: Check):
                          {"kind": "factorize", "n": outer, "expected": exp})
     ck.sample({"kind": "perfect", "outer": 360, "inner": 6, "expected": expected.get((360, 6))})
 
+    lap("perfect_replay")
     # ---- B2: mapspace-size counter
     res = ck.tlc("MC_TileShapes", "MC_TileShapes_chains.cfg", env=env, coverage=False, timeout=3000, workers=6)
     if not res.ok:
@@ -176,6 +188,7 @@ def run(ck: Check):
         if n == 60 and pat == [True, False, False]:
             ck.sample(dict(case, expected=exp))
 
+    lap("chains_tlc_and_replay")
     # ---- C: imperfect candidate sets recorded from the code, judged by TLC
     recorded = []
     for outer, inner, got, err in _pmap(_imperfect_chunk, pairs):
@@ -186,12 +199,14 @@ def run(ck: Check):
                 ck.impl_error_sample = {"case": {"kind": "imperfect", "outer": outer, "inner": inner}, "traceback": err}
             continue
         recorded.append({"outer": outer, "inner": inner, "cands": got})
+    lap("imperfect_record")
     cfile = os.path.join(ck.work, "imperfect_recorded.json")
     json.dump(recorded, open(cfile, "w"))
     res = ck.tlc("Trace_TileShapes", "Trace_TileShapes.cfg", env=dict(env, CASE_FILE=cfile), coverage=False,
                  timeout=3000, workers=6)
     if not res.ok:
         raise Machinery("trace validation failed to run: %s\n%s" % (res.violated, res.tail))
+    lap("imperfect_tlc")
     if sorted(v["idx"] for v in res.records) != list(range(1, len(recorded) + 1)):
         raise Machinery("TLC judged %d of %d recorded sets" % (len(res.records), len(recorded)))
     n_not_multiple = 0
